@@ -85,13 +85,19 @@ impl Blocker {
     #[inline]
     fn new_coroutine(co: CoroutineImpl) -> Self {
         let handle = NonZeroUsize::new(co.into_raw() as usize).unwrap();
+        #[cfg(may_verif)]
+        crate::verif::born("SpscBlocker", handle.get() as *const u8);
         Blocker { handle }
     }
 
     #[inline]
     fn new_thread(thread: Thread) -> Self {
+        #[cfg(may_verif)]
+        crate::verif::thread_key(thread.id());
         let mut handle = NonZeroUsize::new(Box::into_raw(Box::new(thread)) as usize).unwrap();
         handle |= 1;
+        #[cfg(may_verif)]
+        crate::verif::born("SpscBlocker", handle.get() as *const u8);
         Blocker { handle }
     }
 
@@ -116,7 +122,10 @@ impl Blocker {
             get_scheduler().schedule(co);
         } else {
             let thread = self.into_thread();
+            #[cfg(not(may_verif))]
             thread.unpark();
+            #[cfg(may_verif)]
+            crate::verif::thread_unpark(&thread);
         }
     }
 }
@@ -178,7 +187,10 @@ impl<T> InnerQueue<T> {
                     match self.try_recv() {
                         Err(TryRecvError::Empty) => {
                             // no data, wait for it
+                            #[cfg(not(may_verif))]
                             std::thread::park();
+                            #[cfg(may_verif)]
+                            crate::verif::thread_park();
                         }
                         data => {
                             self.wait_co.clear();
